@@ -247,7 +247,7 @@ def run_tlc(
     """Run TLC on /verif/spec/<module>.tla with the given cfg (default <module>.cfg)."""
     cfg = cfg or module + ".cfg"
     meta = tempfile.mkdtemp(prefix="tlc-meta-")
-    jopts = ["-XX:+UseParallelGC", f"-Xmx{heap}"]
+    jopts = ["-XX:+UseParallelGC", f"-Xmx{heap}", "-Xss512m"]
     if depth_first:
         jopts.append("-Dtlc2.tool.queue.IStateQueue=StateDeque")
     cmd = (
